@@ -96,13 +96,10 @@ def dep_closure(vfile):
         path = os.path.join(COQ, v)
         if not os.path.exists(path):
             continue
-        txt = open(path).read()
-        for m in re.finditer(r"From FV Require (?:Import|Export)\s+([^.]*(?:\.[A-Za-z_0-9]+)*)\.", txt):
-            pass
-        for line in re.findall(r"From FV Require (?:Import|Export)([^\n]*?)\.\s*\n", txt):
-            for mod in line.split():
-                p = "theories/" + mod.replace(".", "/") + ".v"
-                todo.append(p)
+        txt = strip_comments(open(path).read())
+        for m in re.finditer(r"From FV Require (?:Import|Export)\s+((?:\w+(?:\.\w+)*\s*)+)\.(?:\s|$)", txt):
+            for mod in m.group(1).split():
+                todo.append("theories/" + mod.replace(".", "/") + ".v")
     return seen
 
 
